@@ -81,6 +81,10 @@ func (withdrawTx) Validate(ctx *action.Context, signedTx action.SignedTx) (bool,
 	if !withdraw.WithdrawAmount.IsValid(ctx.Currencies) {
 		return false, errors.Wrap(action.ErrInvalidAmount, withdraw.WithdrawAmount.String())
 	}
+	// runWithdraw narrows the amount to int64 (ToCoinWithBase): 2^64-2 would arrive there as -2
+	if !withdraw.WithdrawAmount.Value.BigInt().IsInt64() {
+		return false, errors.Wrap(action.ErrInvalidAmount, withdraw.WithdrawAmount.String())
+	}
 	err = withdraw.ValidatorAddress.Err()
 	if err != nil {
 		return false, errors.Wrap(action.ErrInvalidAddress, err.Error())
